@@ -223,7 +223,10 @@ func getDebianCharWeight(r rune) int {
 	case 0:
 		return 0 // Null/missing character
 	default:
-		return int(r) // Use Unicode value for other characters
+		if (r >= 'a' && r <= 'z') || (r >= 'A' && r <= 'Z') {
+			return int(r) // Letters sort by their value, before all other characters
+		}
+		return int(r) + 256 // Non-letters sort after all letters
 	}
 }
 
